@@ -359,6 +359,14 @@ def _node_containing(g, expr):
     raise AnalysisError('CFG: call site not found in graph')
 
 
+def _nodes_containing(g, expr):
+    """all CFG nodes holding expr (a finally body is present twice: normal and exceptional copy)"""
+    out = [n for n in g.stmt_nodes() if n.ast is not None and any(x is expr for x in ast.walk(n.ast))]
+    if not out:
+        raise AnalysisError('CFG: call site not found in graph')
+    return out
+
+
 def _raise_set(sc, cls, fn, guards, timeexpr, clock_t, domain, delay=None):
     """values of the ordering atom (time ? clock) for which at least one guard sends control to its raise branch"""
     tt = sc.c(timeexpr, cls)
@@ -779,3 +787,511 @@ def _collect_guards(sc, cls, fn, depth, sub=None):
                     b = {k: Subst(sub).visit(copy.deepcopy(v)) for k, v in b.items()}
                     out += _collect_guards(sc, c2.name, f2, depth + 1, b)
     return out
+
+
+# ===========================================================================================================
+# Part B: lifecycle protocol (R4.x)
+# ===========================================================================================================
+from .effects import RBE, Effects, FIRES  # noqa: E402
+
+COMMANDS = ('initialize', 'start', 'step', 'stop', 'run_up_to', 'run_up_to_including', 'end_replication', 'cleanup')
+
+
+def _slug(text, n=48):
+    import re
+    t = re.sub(r'[^A-Za-z0-9]+', '-', text).strip('-')
+    return t[:n]
+
+
+def rbe_check(ctx, rule, cls, methods, what, floor=None, rbe=None):
+    """refuse-before-effect for cls.methods; one finding per (entry, raise site)"""
+    prog = ctx.prog
+    rbe = rbe or RBE(prog)
+    n = 0
+    for m in methods:
+        dc, fn = prog.resolve(cls, m)
+        if fn is None:
+            raise AnalysisError(f'anchor vanished: {cls}.{m}')
+        s, viol = rbe.check(cls, m)
+        n += 1
+        ctx.examined(len(s['raises']) + 1)
+        ok = not viol
+        ctx.ob(rule, f'{cls}.{m}', ok, sample=f'{cls}.{m}: {len(s["raises"])} feasible raise sites, effect-before-refusal paths: {len(viol)}')
+        seen = set()
+        for v in viol:
+            msg = v.site.text
+            exc = msg[msg.find('(') + 1:] if '(' in msg else msg
+            key = f'{dc.name}.{m}:{v.site.where}:{_slug(exc)}'
+            if key in seen:
+                continue
+            seen.add(key)
+            ci = prog.classes.get(v.site.where.split('.')[0])
+            ctx.finding(rule, key, ci, v.site.node,
+                        f'{what}: `{v.site.text}` (reached via {" > ".join(v.site.chain)}) can be raised after the effect '
+                        f'`{v.effect}` at {v.effect_where}:{v.effect_line}',
+                        where=f'{dc.name}.{m}', extra={'entry': f'{cls}.{m}', 'call_chain': v.site.chain, 'first_effect': v.effect,
+                                                       'effect_at': f'{v.effect_where}:{v.effect_line}'})
+    if rbe.depth_exceeded:
+        raise AnalysisError(f'{rule}: inlining bound exceeded: {sorted(set(rbe.depth_exceeded))[:3]}')
+    if floor is not None:
+        ctx.floor(rule, 'commands analysed', n, floor)
+    ctx.extra.setdefault('infeasible_callee_raises_discarded', [])
+    ctx.extra['infeasible_callee_raises_discarded'] = sorted(set(ctx.extra['infeasible_callee_raises_discarded']) | set(rbe.filtered))[:40]
+    return rbe
+
+
+def r41_refuse_before_effect(ctx, sc: SimCtx):
+    ctx.rule('R4.1', 'a refused command changes nothing and notifies nobody: no field write / container mutation / fire on any path to a raise (callee raises filtered by guard subsumption)')
+    ctx.assume('names bound to elements of the object\'s own containers are well typed (listener lists hold listeners)')
+    rbe_check(ctx, 'R4.1', SIM, COMMANDS + ('set_error_strategy',), 'refused command has already taken effect', floor=7)
+
+
+# --------------------------------------------------------------------------- R4.2
+def admission_outcomes(sc: SimCtx, cmd, env, descend=('_start_impl',)):
+    """set of outcomes {'admitted', 'refused:<msg>'} of command cmd under the abstract state env"""
+    prog = sc.prog
+    dc, fn = prog.resolve(SIM, cmd)
+    ge = GuardEval(prog, SIM, env, sc.enums)
+    outcomes = set()
+    ambiguous = []
+
+    def walk(stmts, def_cls, depth):
+        for s in stmts:
+            if isinstance(s, ast.If):
+                v = ge.ev(s.test)
+                branches = []
+                if v is None:
+                    ambiguous.append(short(s.test, 60))
+                if v is not False:
+                    branches.append(s.body)
+                if v is not True:
+                    branches.append(s.orelse)
+                fell = False
+                for b in branches:
+                    if walk(b, def_cls, depth):
+                        fell = True
+                if not fell:
+                    return False
+                continue
+            if isinstance(s, ast.Raise):
+                outcomes.add('refused: ' + short(s.exc, 70) if s.exc is not None else 'refused')
+                return False
+            if isinstance(s, ast.Return):
+                return True     # command body done without refusal on this path
+            if isinstance(s, ast.Expr) and isinstance(s.value, ast.Call) and depth < 3:
+                sck = self_call_kind(s.value, prog)
+                if sck is not None and sck[1] not in FIRES:
+                    same = sck[0] == 'super' and sck[1] == cmd
+                    helper = sck[0] == 'self' and sck[1] in descend
+                    if same or helper:
+                        d2, f2 = prog.resolve(SIM, sck[1], after=def_cls) if sck[0] == 'super' else prog.resolve(SIM, sck[1])
+                        if f2 is not None:
+                            if not walk(body_of(f2), d2.name, depth + 1):
+                                return False
+                            continue
+            if isinstance(s, ast.Try):
+                # guards inside try-blocks do not occur in commands today; effects only
+                continue
+        return True
+    if walk(body_of(fn), dc.name, 0):
+        outcomes.add('admitted')
+    return outcomes, ambiguous
+
+
+def r42_admission_tables(ctx, sc: SimCtx):
+    ctx.rule('R4.2', 'admission table of every command over RunState x ReplicationState x (replication is None) x (clock ? end) equals the documented rules')
+    RS = list(sc.enums['RunState'])
+    PS = list(sc.enums['ReplicationState'])
+    if len(RS) != 7 or len(PS) != 5:
+        raise AnalysisError(f'R4.2: RunState/ReplicationState have {len(RS)}/{len(PS)} members; the reference tables are written for 7/5')
+    active = {'STARTING', 'STARTED'}
+
+    def spec_start(rs, ps, none, rel):
+        return rs not in active | {'NOT_INITIALIZED'} and not none and ps in ('INITIALIZED', 'STARTED') and rel == 'lt'
+    specs = {
+        'start': spec_start, 'run_up_to': spec_start, 'run_up_to_including': spec_start, 'step': spec_start,
+        'stop': lambda rs, ps, none, rel: rs in active,
+        'initialize': lambda rs, ps, none, rel: rs not in active,
+    }
+    typeatoms = {('bool', 'isinstance(model, ModelInterface)'): True, ('bool', "hasattr(model, '_simulator')"): True,
+                 ('bool', 'isinstance(replication, ReplicationInterface)'): True}
+    for cmd, spec in specs.items():
+        mism = []
+        amb = set()
+        nstates = 0
+        adm = 0
+        for rs, ps, none, rel in itertools.product(RS, PS, (False, True), ('lt', 'eq', 'gt')):
+            # consistent abstract states only: a simulator without replication is NOT_INITIALIZED
+            if none and rs != 'NOT_INITIALIZED':
+                continue
+            nstates += 1
+            env = {'self._run_state': rs, 'self._replication_state': ps, ('isnone', 'self._replication'): none,
+                   ('ord', sc.clock_t, sc.end_t): rel}
+            env.update(typeatoms)
+            if cmd == 'initialize':
+                # arguments with a well-formed replication (warm-up not before start)
+                env[('ord', 'replication.warmup_sim_time', 'replication.start_sim_time')] = 'eq'
+            out, a = admission_outcomes(sc, cmd, env)
+            ctx.examined()
+            amb |= set(a)
+            want = spec(rs, ps, none, rel)
+            if out == {'admitted'}:
+                adm += 1
+            definite = len(out) == 1 and not a
+            if definite and (out == {'admitted'}) != want:
+                mism.append(((rs, ps, 'no-replication' if none else 'replication', f'clock {rel} end'), sorted(out), 'admitted' if want else 'refused'))
+            elif not definite and len(out) == 1 and (out == {'admitted'}) != want:
+                mism.append(((rs, ps, 'no-replication' if none else 'replication', f'clock {rel} end'), sorted(out), 'admitted' if want else 'refused'))
+        ok = not mism
+        ctx.exhaustive[f'R4.2 {cmd}: {nstates} abstract states'] = True
+        ctx.ob('R4.2', cmd, ok, sample=f'{cmd}: admitted in {adm}/{nstates} abstract states; mismatches with the documented rules: {len(mism)}'
+                                       + (f'; undetermined guard atoms {sorted(amb)}' if amb else ''))
+        if amb:
+            ctx.note(f'R4.2 {cmd}: guards with atoms outside the abstract state, treated as either way: {sorted(amb)}')
+        if not ok:
+            st, got, want = mism[0]
+            dc, fn = ctx.prog.resolve(SIM, cmd)
+            ctx.finding('R4.2', f'Simulator.{cmd}:admission', dc, fn,
+                        f'{cmd}: in {len(mism)} of {nstates} abstract states the code disagrees with the documented protocol, e.g. state {st}: '
+                        f'code {got}, protocol says {want}', where=f'{dc.name}.{cmd}', extra={'mismatches': [str(m) for m in mism[:12]]})
+
+
+# --------------------------------------------------------------------------- R4.3
+def _fires_of(fn, evname):
+    """call nodes self.fire*(…, <X>.<evname>, …) / self._job.fire*(...) in fn"""
+    out = []
+    for n in walk_shallow(fn):
+        if isinstance(n, ast.Call) and isinstance(n.func, ast.Attribute) and n.func.attr in FIRES:
+            for a in n.args:
+                if isinstance(a, ast.Attribute) and a.attr == evname:
+                    out.append(n)
+    return out
+
+
+def _writes_of(fn, field, value_text):
+    out = []
+    for n in walk_shallow(fn):
+        if isinstance(n, ast.Assign) and any(isinstance(t, ast.Attribute) and t.attr == field for t in n.targets) and unparse(n.value) == value_text:
+            out.append(n)
+    return out
+
+
+def r43_notifications(ctx, sc: SimCtx):
+    prog = ctx.prog
+    ctx.rule('R4.3', 'notification stream shape: START/STOP paired on every path, replication start/end fired once under their state tests, TIME_CHANGED carries the popped event time, one warm-up per initialize')
+    NORMAL = ('exc', 'raise', 'reraise')
+    # (i) pairing
+    nstart = 0
+    for ci, fn in sc.sim_functions():
+        starts = _fires_of(fn, 'START_EVENT')
+        if not starts:
+            continue
+        g = CFG(fn)
+        stops = [n for c in _fires_of(fn, 'STOP_EVENT') for n in _nodes_containing(g, c)]
+        for c in starts:
+            nstart += 1
+            sn = _node_containing(g, c)
+            # loop heads that enclose the START fire: reaching one again means the next iteration started without STOP
+            heads = [h for h in g.nodes if h.kind == 'cond' and isinstance(h.stmt, ast.While) and any(x is c for x in ast.walk(h.stmt))]
+            excl = () if fn.name == 'step' else NORMAL
+            bad = g.reaches(sn, g.exit, avoid=stops, labels_excluded=excl) or any(g.reaches(sn, h, avoid=stops, labels_excluded=excl) for h in heads)
+            if fn.name == 'step':
+                bad = bad or g.reaches(sn, g.rexit, avoid=stops)
+            ok = not bad
+            ctx.ob('R4.3', f'{ci.name}.{fn.name}:START-STOP', ok, sample=f'{ci.name}.{fn.name}: START_EVENT is followed by STOP_EVENT on every '
+                   f'{"path incl. exceptional" if fn.name == "step" else "normal path"}: {ok}')
+            if not ok:
+                ctx.finding('R4.3', f'{ci.name}.{fn.name}:START-without-STOP', ci, c,
+                            'a START_EVENT notification can be followed by the end of the function / the next loop iteration without a STOP_EVENT: '
+                            'subscribers see start notifications that do not alternate with stop notifications', where=f'{ci.name}.{fn.name}')
+    ctx.floor('R4.3', 'START_EVENT fire sites', nstart, 2)
+    # (ii) once-only replication events
+    nrep = 0
+    for ci, fn in sc.sim_functions():
+        for (ev, state_from, state_to) in (('START_REPLICATION_EVENT', 'INITIALIZED', 'STARTED'), ('END_REPLICATION_EVENT', 'ENDING', 'ENDED')):
+            for c in _fires_of(fn, ev):
+                nrep += 1
+                g = CFG(fn)
+                node = _node_containing(g, c)
+                # dominated by a test that the replication state is state_from
+                dominated = False
+                for other in sc.enums['ReplicationState']:
+                    if other == state_from:
+                        continue
+                    env = {'self._replication_state': other, 'self._job._replication_state': other}
+                    ge = GuardEval(prog, ci.name, env, sc.enums)
+                    blocked = any((ge.ev(cn.ast) is not None and ge.ev(cn.ast) != br) for (cn, br) in g.guard_branches(node))
+                    if not blocked:
+                        dominated = False
+                        break
+                    dominated = True
+                writes = [g.node_for(w) for w in _writes_of(fn, '_replication_state', f'ReplicationState.{state_to}')]
+                moved = bool(writes) and (any(g.dominates(w, node) for w in writes)
+                                          or not g.reaches(node, g.exit, avoid=writes, labels_excluded=NORMAL))
+                # the state write must sit under the same guard (not reachable without firing or having fired)
+                ok = dominated and moved
+                ctx.ob('R4.3', f'{ci.name}.{fn.name}:{ev}', ok,
+                       sample=f'{ci.name}.{fn.name}: {ev} fired only when replication state == {state_from}: {dominated}; state := {state_to} on the same path: {moved}')
+                if not ok:
+                    ctx.finding('R4.3', f'{ci.name}.{fn.name}:{ev}', ci, c,
+                                f'{ev} can be fired more than once or at the wrong moment: fired under `replication_state == {state_from}` test: '
+                                f'{dominated}; replication_state := {state_to} on every such path: {moved}', where=f'{ci.name}.{fn.name}')
+    ctx.floor('R4.3', 'replication start/end fire sites', nrep, 3)
+    # (iii) TIME_CHANGED carries the time of the popped event, between pop and execute
+    ntc = 0
+    for ci, fn in sc.sim_functions():
+        pops = [st for st in walk_shallow(fn) if isinstance(st, (ast.Assign, ast.AnnAssign)) and isinstance(st.value, ast.Call)
+                and isinstance(st.value.func, ast.Attribute) and st.value.func.attr == 'pop_first']
+        for st in pops:
+            tgt = st.targets[0] if isinstance(st, ast.Assign) else st.target
+            if not isinstance(tgt, ast.Name):
+                continue
+            var = tgt.id
+            ntc += 1
+            g = CFG(fn)
+            pn = g.node_for(st)
+            fires = _fires_of(fn, 'TIME_CHANGED_EVENT')
+            good = False
+            why = 'no TIME_CHANGED_EVENT fire'
+            for c in fires:
+                fnode = _node_containing(g, c)
+                execs = [n for n in g.stmt_nodes() if n.ast is not None and any(
+                    isinstance(x, ast.Call) and isinstance(x.func, ast.Attribute) and x.func.attr == 'execute' and unparse(x.func.value) == var
+                    for x in walk_shallow(n.ast))]
+                between = g.reaches(pn, fnode) and any(g.reaches(fnode, e) for e in execs) and not any(g.reaches(e, fnode, avoid=(pn,)) for e in execs)
+                args_ok = c.func.attr == 'fire_timed' and len(c.args) >= 3 and canon_time_of(sc, c.args[0], var) and canon_time_of(sc, c.args[2], var)
+                if between and args_ok:
+                    good = True
+                else:
+                    why = f'fire `{short(c, 70)}`: between pop and execute {between}; timestamp and payload are {var}.time: {args_ok}'
+            ctx.ob('R4.3', f'{ci.name}.{fn.name}:TIME_CHANGED', good, sample=f'{ci.name}.{fn.name}: TIME_CHANGED_EVENT({var}.time) fired between pop and execute: {good}')
+            if not good:
+                ctx.finding('R4.3', f'{ci.name}.{fn.name}:TIME_CHANGED', ci, st,
+                            f'time-changed notification for the popped event {var} is wrong or missing ({why})', where=f'{ci.name}.{fn.name}')
+    ctx.floor('R4.3', 'pop sites with TIME_CHANGED', ntc, 2)
+    # (iv) warm-up
+    dc, wf = prog.resolve(SIM, 'warmup')
+    if wf is None:
+        raise AnalysisError('anchor vanished: Simulator.warmup')
+    fires = _fires_of(wf, 'WARMUP_EVENT')
+    ok = len(fires) == 1 and fires[0].func.attr == 'fire_timed' and sc.c(fires[0].args[0], dc.name) == sc.clock_t
+    ctx.ob('R4.3', 'Simulator.warmup', ok, sample=f'warmup(): {short(fires[0], 80) if fires else "no fire"}')
+    if not ok:
+        ctx.finding('R4.3', 'Simulator.warmup', dc, wf, 'warmup() does not fire exactly one WARMUP_EVENT timestamped with the clock', where='Simulator.warmup')
+    dc, inf = prog.resolve(SIM, 'initialize')
+    g = CFG(inf)
+    sched = [c for c in walk_shallow(inf) if isinstance(c, ast.Call) and isinstance(c.func, ast.Attribute) and c.func.attr.startswith('schedule_event')
+             and any(isinstance(a, ast.Constant) and a.value == 'warmup' for a in c.args)]
+    sup = [c for c in walk_shallow(inf) if isinstance(c, ast.Call) and isinstance(c.func, ast.Attribute) and is_super_call(c.func.value) and c.func.attr == 'initialize']
+    in_loop = any(isinstance(l, (ast.For, ast.While)) and any(x is c for x in ast.walk(l)) for l in walk_shallow(inf) for c in sched)
+    ok = len(sched) == 1 and len(sup) == 1 and not in_loop and g.dominates(_node_containing(g, sup[0]), _node_containing(g, sched[0])) \
+        and not g.reaches(g.entry, g.exit, avoid=[_node_containing(g, sched[0])], labels_excluded=NORMAL)
+    tm = None
+    if sched:
+        a0 = sched[0].args[0] if sched[0].args else None
+        tm = sc.c(a0, dc.name) if a0 is not None else None
+        ok = ok and tm is not None and tm.endswith('.warmup_sim_time')
+    ctx.ob('R4.3', 'DEVSSimulator.initialize:warmup', ok, sample=f'initialize schedules warm-up once, after super().initialize, at `{tm}`: {ok}')
+    if not ok:
+        ctx.finding('R4.3', 'DEVSSimulator.initialize:warmup-schedule', dc, sched[0] if sched else inf,
+                    'initialize must schedule exactly one warm-up event at replication.warmup_sim_time, after the base initialisation, on every path',
+                    where='DEVSSimulator.initialize')
+
+
+# --------------------------------------------------------------------------- R4.4
+def r44_wait_clear(ctx, sc: SimCtx):
+    prog = ctx.prog
+    ctx.rule('R4.4', 'lost wake-up: in a loop that wait()s and clear()s one threading.Event, clear() follows wait() with nothing but flag assignments in between')
+    n = 0
+    for ci in prog.classes.values():
+        for fn in ci.methods.values():
+            waits = [c for c in walk_shallow(fn) if isinstance(c, ast.Call) and isinstance(c.func, ast.Attribute) and c.func.attr == 'wait' and is_self_attr(c.func.value)]
+            for w in waits:
+                fld = w.func.value.attr
+                clears = [c for c in walk_shallow(fn) if isinstance(c, ast.Call) and isinstance(c.func, ast.Attribute) and c.func.attr == 'clear'
+                          and is_self_attr(c.func.value, fld)]
+                if not clears:
+                    continue
+                n += 1
+                g = CFG(fn)
+                wn = _node_containing(g, w)
+                cnodes = {_node_containing(g, c).id for c in clears}
+                # forward from wait: every path must hit clear before anything but simple flag stores
+                bad = None
+                todo, seen = [s for (s, l) in wn.succ if l != 'exc'], set()
+                while todo and bad is None:
+                    x = todo.pop()
+                    if x.id in seen or x.id in cnodes:
+                        continue
+                    seen.add(x.id)
+                    simple = x.kind == 'stmt' and isinstance(x.ast, ast.Assign) and all(is_self_attr(t) for t in x.ast.targets) \
+                        and isinstance(x.ast.value, (ast.Constant, ast.Name))
+                    if not simple:
+                        bad = x
+                        break
+                    todo.extend(s for (s, l) in x.succ if l != 'exc')
+                ok = bad is None
+                ctx.ob('R4.4', f'{ci.name}.{fn.name}:{fld}', ok, sample=f'{ci.name}.{fn.name}: {fld}.wait() immediately followed by {fld}.clear(): {ok}')
+                if not ok:
+                    ctx.finding('R4.4', f'{ci.name}.{fn.name}:{fld}:wait-clear', ci, w,
+                                f'`{short(bad.ast, 60) if bad.ast is not None else bad.kind}` runs between {fld}.wait() and {fld}.clear(): a set() issued while the '
+                                f'thread works (e.g. start() during STOPPING) is erased by the later clear() and the wake-up is lost',
+                                where=f'{ci.name}.{fn.name}')
+    ctx.floor('R4.4', 'wait/clear loops', n, 1)
+
+
+# --------------------------------------------------------------------------- R4.5
+def r45_clobber(ctx, sc: SimCtx):
+    prog = ctx.prog
+    ctx.rule('R4.5', 'no command admitted while the worker is active writes the run state without synchronisation (it could overwrite the worker\'s STOPPED/ENDED)')
+    active_cmds = []
+    for cmd in COMMANDS:
+        env = {'self._run_state': 'STARTED', 'self._replication_state': 'STARTED', ('isnone', 'self._replication'): False,
+               ('ord', sc.clock_t, sc.end_t): 'lt', ('bool', 'isinstance(model, ModelInterface)'): True,
+               ('bool', "hasattr(model, '_simulator')"): True, ('bool', 'isinstance(replication, ReplicationInterface)'): True}
+        out, _a = admission_outcomes(sc, cmd, env)
+        if 'admitted' in out:
+            active_cmds.append(cmd)
+    n = 0
+    for cmd in active_cmds:
+        # transitive writers of _run_state reachable from cmd through self-calls
+        seen = set()
+
+        def visit(cls, fn, chain):
+            nonlocal n
+            key = (cls, fn.name)
+            if key in seen:
+                return
+            seen.add(key)
+            for st in walk_shallow(fn):
+                if isinstance(st, ast.Assign) and any(is_self_attr(t, '_run_state') for t in st.targets):
+                    n += 1
+                    locked = any(isinstance(w, ast.With) and any(x is st for x in ast.walk(w)) and 'lock' in unparse(w.items[0].context_expr).lower()
+                                 for w in walk_shallow(fn))
+                    ctx.ob('R4.5', f'{cls}.{fn.name}:_run_state', locked,
+                           sample=f'{cmd} (admitted while the worker runs) -> {cls}.{fn.name}: {short(st)}; under a lock: {locked}')
+                    if not locked:
+                        ci = prog.cls(cls)
+                        ctx.finding('R4.5', f'{cls}.{fn.name}:_run_state', ci, st,
+                                    f'`{short(st)}` is executed by {cmd}(), which is admitted while the worker thread is active, without any lock shared '
+                                    f'with the worker\'s own writes of STOPPED/ENDED: the write can overwrite a terminal state (ENDED -> STOPPING for ever)',
+                                    where=f'{cls}.{fn.name}')
+                elif isinstance(st, ast.Call):
+                    sck = self_call_kind(st, prog)
+                    if sck and sck[0] == 'self' and sck[1] not in FIRES:
+                        d2, f2 = prog.resolve(SIM, sck[1])
+                        if f2 is not None:
+                            visit(d2.name, f2, chain + [sck[1]])
+        dc, fn = prog.resolve(SIM, cmd)
+        if cmd in ('end_replication', 'cleanup'):
+            continue                # not state-machine commands of the run state (documented as callable from handlers)
+        visit(dc.name, fn, [cmd])
+    ctx.ob('R4.5', 'commands admitted while worker active', True, sample=f'commands admitted in state STARTED: {active_cmds}')
+
+
+# --------------------------------------------------------------------------- R4.6
+def r46_optional_worker(ctx, sc: SimCtx):
+    prog = ctx.prog
+    ctx.rule('R4.6', 'the optional worker thread is dereferenced only where it is known to exist (not-None test, assignment, or a guard implying an initialised simulator)')
+    wf = None
+    init = prog.method(BASE, '__init__', inherited=False)
+    for n in walk_shallow(init):
+        if isinstance(n, (ast.Assign, ast.AnnAssign)):
+            tg = n.targets if isinstance(n, ast.Assign) else [n.target]
+            if any(is_self_attr(t) and 'worker' in t.attr for t in tg) and isinstance(n.value, ast.Constant) and n.value.value is None:
+                wf = [t.attr for t in tg if is_self_attr(t)][0]
+    if wf is None:
+        raise AnalysisError('anchor vanished: Simulator.__init__ does not set a worker field to None')
+    ci = prog.cls(BASE)
+    wtxt = f'self.{wf}'
+
+    def evidence(fn, node_ast, g=None, depth=0):
+        g = g or CFG(fn)
+        node = _node_containing(g, node_ast) if not isinstance(node_ast, ast.stmt) else g.node_for(node_ast)
+        # (a) not-None test
+        for (c, br) in g.guard_branches(node):
+            ge = GuardEval(prog, BASE, {('isnone', wtxt): True, 'self._run_state': 'NOT_INITIALIZED'}, sc.enums)
+            r = ge.ev(c.ast)
+            if r is not None and r != br:
+                return f'guard `{short(c.ast, 50)}`'
+        # (d) dominated by an assignment of a fresh worker, with no reset in between
+        for st in walk_shallow(fn):
+            if isinstance(st, ast.Assign) and any(is_self_attr(t, wf) for t in st.targets) and isinstance(st.value, ast.Call):
+                an = g.node_for(st)
+                if g.dominates(an, node) and an is not node:
+                    resets = [x for x in g.stmt_nodes() if x.ast is not None and any(
+                        (isinstance(y, ast.Assign) and any(is_self_attr(t, wf) for t in y.targets) and isinstance(y.value, ast.Constant))
+                        or (isinstance(y, ast.Call) and isinstance(y.func, ast.Attribute) and is_self_attr(y.func) and y.func.attr == 'cleanup')
+                        for y in walk_shallow(x.ast))]
+                    if not any(g.reaches(an, r) and g.reaches(r, node) for r in resets):
+                        return f'assigned at line {st.lineno}'
+        # (c) private helper: every call site provides the evidence
+        if fn.name.startswith('_') and depth < 2:
+            sites = []
+            for c2 in (BASE, SIM):
+                for f2 in prog.cls(c2).methods.values():
+                    for call in walk_shallow(f2):
+                        if isinstance(call, ast.Call) and isinstance(call.func, ast.Attribute) and is_self_attr(call.func) and call.func.attr == fn.name:
+                            sites.append((f2, call))
+            if sites:
+                evs = [evidence(f2, call, None, depth + 1) for (f2, call) in sites]
+                if all(evs):
+                    return 'every caller: ' + '; '.join(f'{f2.name}: {e}' for (f2, _c), e in zip(sites, evs))
+        return None
+    n = 0
+    for fn in ci.methods.values():
+        for d in walk_shallow(fn):
+            if isinstance(d, ast.Attribute) and is_self_attr(d.value, wf) and isinstance(d.ctx, ast.Load):
+                n += 1
+                ev = evidence(fn, d)
+                ok = ev is not None
+                ctx.ob('R4.6', f'{BASE}.{fn.name}:{d.attr}', ok, sample=f'{BASE}.{fn.name}: {wtxt}.{d.attr} -- {ev or "NO EVIDENCE that the worker exists"}')
+                if not ok:
+                    ctx.finding('R4.6', f'{BASE}.{fn.name}:{wf}.{d.attr}', ci, d,
+                                f'{wtxt}.{d.attr} is used although the worker is None before initialize() and after cleanup(): AttributeError '
+                                f'instead of a DSOLError (and effects before it are not undone)', where=f'{BASE}.{fn.name}')
+    ctx.floor('R4.6', 'worker dereferences', n, 6)
+
+
+# --------------------------------------------------------------------------- R4.7
+def r47_termination(ctx, sc: SimCtx):
+    prog = ctx.prog
+    ctx.rule('R4.7', 'the run thread terminates: END_REPLICATION paths set _finalized, cleanup() finalises and wakes the worker, the loop tests _finalized')
+    wci = prog.cls('SimulatorWorkerThread')
+    run = prog.method('SimulatorWorkerThread', 'run', inherited=False)
+    loops = [s for s in body_of(run) if isinstance(s, ast.While)]
+    ok = len(loops) == 1 and '_finalized' in unparse(loops[0].test)
+    ctx.ob('R4.7', 'worker.run:loop-condition', ok, sample=f'worker loop: while {short(loops[0].test) if loops else "?"}')
+    if not ok:
+        ctx.finding('R4.7', 'SimulatorWorkerThread.run:loop-condition', wci, run, 'the worker loop does not test _finalized: the thread can never terminate',
+                    where='SimulatorWorkerThread.run')
+    g = CFG(run)
+    fins = [g.node_for(w) for w in walk_shallow(run) if isinstance(w, ast.Assign) and any(is_self_attr(t, '_finalized') for t in w.targets)
+            and isinstance(w.value, ast.Constant) and w.value.value is True]
+    for c in _fires_of(run, 'END_REPLICATION_EVENT'):
+        node = _node_containing(g, c)
+        heads = [h for h in g.nodes if h.kind == 'cond' and isinstance(h.stmt, ast.While)]
+        ok = bool(fins) and (any(g.dominates(f, node) for f in fins) or not any(g.reaches(node, h, avoid=fins, labels_excluded=('exc',)) for h in heads))
+        ctx.ob('R4.7', 'worker.run:END->finalized', ok, sample=f'END_REPLICATION_EVENT path sets _finalized before the loop iterates: {ok}')
+        if not ok:
+            ctx.finding('R4.7', 'SimulatorWorkerThread.run:END-without-finalize', wci, c,
+                        'after firing END_REPLICATION_EVENT the worker can iterate again without _finalized = True: the thread of an ended replication never exits',
+                        where='SimulatorWorkerThread.run')
+    wc = prog.method('SimulatorWorkerThread', 'cleanup', inherited=False)
+    sets = any(isinstance(w, ast.Assign) and any(is_self_attr(t, '_finalized') for t in w.targets) and const_value(w.value) is True for w in walk_shallow(wc))
+    wakes = any(isinstance(c, ast.Call) and isinstance(c.func, ast.Attribute) and ((is_self_attr(c.func) and c.func.attr == 'wakeup') or c.func.attr == 'set')
+                for c in walk_shallow(wc))
+    wk = prog.method('SimulatorWorkerThread', 'wakeup', inherited=False)
+    wk_sets = any(isinstance(c, ast.Call) and isinstance(c.func, ast.Attribute) and c.func.attr == 'set' for c in walk_shallow(wk))
+    ok = sets and wakes and wk_sets
+    ctx.ob('R4.7', 'worker.cleanup', ok, sample=f'worker.cleanup(): _finalized := True {sets}; wakes the thread {wakes and wk_sets}')
+    if not ok:
+        ctx.finding('R4.7', 'SimulatorWorkerThread.cleanup', wci, wc, 'worker.cleanup() must set _finalized and wake the thread, else the thread blocks in wait() for ever',
+                    where='SimulatorWorkerThread.cleanup')
+    sc_fn = prog.method(BASE, 'cleanup', inherited=False)
+    calls = any(isinstance(c, ast.Call) and isinstance(c.func, ast.Attribute) and c.func.attr == 'cleanup' and not is_self_attr(c.func) and 'worker' in unparse(c.func.value)
+                for c in walk_shallow(sc_fn))
+    ctx.ob('R4.7', 'Simulator.cleanup', calls, sample=f'Simulator.cleanup() finalises the worker: {calls}')
+    if not calls:
+        ctx.finding('R4.7', 'Simulator.cleanup:worker', prog.cls(BASE), sc_fn, 'Simulator.cleanup() does not call worker.cleanup(): the run thread is leaked',
+                    where='Simulator.cleanup')
